@@ -105,6 +105,32 @@ PROJECTS = [
         "scripts/a.exps": "import \"common.exps\";\ndef 0 {\n    ~c(5);\n    end;\n}\n",
         "scripts/b.exps": "import \"more.exps\";\nimport \"common.exps\";\ncoro K {\n    ~d();\n    ~c(2);\n    hold;\n}\n",
      }, "lookup": ["inc"]},
+    # two or more imports define the SAME macro name with different bodies (the later import statement wins); imports in both orders
+    {"files": {
+        "dup/lib_one.exps": "macro greet() {\n    first_variant(1);\n}\n",
+        "dup/lib_two.exps": "macro greet() {\n    second_variant(2);\n    second_variant(3);\n}\nmacro only_two() {\n    t();\n}\n",
+        "dup/lib_three.exps": "macro greet() {\n    third(Position<'g', 1, 2>);\n}\nmacro other() {\n    ~greet();\n    o();\n}\n",
+        "dup_a.exps": "import \"./dup/lib_one.exps\";\nimport \"./dup/lib_two.exps\";\ndef 0 {\n    before(0);\n    ~greet();\n    end;\n}\n",
+        "dup_b.exps": "import \"./dup/lib_two.exps\";\nimport \"./dup/lib_one.exps\";\ndef 0 {\n    before(0);\n    ~greet();\n    ~only_two();\n    end;\n}\n",
+        "dup_c.exps": "import \"./dup/lib_three.exps\";\nimport \"./dup/lib_one.exps\";\nimport \"./dup/lib_two.exps\";\ndef 0 {\n    ~other();\n    ~greet();\n    hold;\n}\n",
+        "dup_d.exps": "import \"./dup/lib_two.exps\";\nimport \"./dup/lib_three.exps\";\nimport \"./dup/lib_one.exps\";\nimport \"./dup/lib_two.exps\";\ncoro Q {\n    ~greet();\n    ~other();\n    end;\n}\n",
+     }, "lookup": []},
+    # three lookup paths, the same file name in several of them (the first path wins), the same macro name in several files
+    {"files": {
+        "inc1/x.exps": "macro pick() {\n    from_inc1_x();\n}\nmacro x1() {\n    a();\n}\n",
+        "inc2/x.exps": "macro pick() {\n    from_inc2_x();\n}\n",
+        "inc2/y.exps": "macro pick() {\n    from_inc2_y();\n}\nmacro y2() {\n    b();\n}\n",
+        "inc3/y.exps": "macro pick() {\n    from_inc3_y();\n}\n",
+        "inc3/z.exps": "macro pick() {\n    from_inc3_z();\n}\nmacro z3() {\n    ~pick();\n}\n",
+        "scripts/m1.exps": "import \"x.exps\";\nimport \"y.exps\";\nimport \"z.exps\";\ndef 0 {\n    ~pick();\n    ~x1();\n    ~y2();\n    ~z3();\n    end;\n}\n",
+        "scripts/m2.exps": "import \"z.exps\";\nimport \"y.exps\";\nimport \"x.exps\";\ndef 0 {\n    ~z3();\n    ~pick();\n    end;\n}\n",
+     }, "lookup": ["inc1", "inc2", "inc3"]},
+    # many macros per file, calling each other, called in another order than defined
+    {"files": {
+        "many/lib.exps": "".join(f"macro m{i}($a) {{\n    op{i}($a, Position<'p{i}', {i}, {i}.5>);\n" + (f"    ~m{i - 3}($a);\n" if i >= 3 and i % 2 else "") + "}\n" for i in range(14)),
+        "many/lib2.exps": "import \"./lib.exps\";\n" + "".join(f"macro n{i}() {{\n    ~m{(i * 5) % 14}({i});\n}}\n" for i in range(8)),
+        "many_main.exps": "import \"./many/lib2.exps\";\nimport \"./many/lib.exps\";\ndef 0 {\n" + "".join(f"    ~n{i}();\n    ~m{(i * 3) % 14}('s{i}');\n" for i in (5, 2, 7, 0, 3)) + "    end;\n}\n",
+     }, "lookup": []},
 ]
 
 
@@ -114,6 +140,14 @@ PROJ_BASE = f"/tmp/esv_c11_{os.getpid()}"      # generated project files live he
 def cleanup_projects() -> None:
     import shutil
     shutil.rmtree(PROJ_BASE, ignore_errors=True)
+
+
+def cleanup_projects_of(calls: list[dict]) -> None:
+    import shutil
+    for c in calls:
+        b = c.get("project", {}).get("base")
+        if b and b.startswith("/tmp/esv_c11_"):
+            shutil.rmtree(b, ignore_errors=True)
 
 
 def project_calls() -> list[list[dict]]:
@@ -256,9 +290,10 @@ class Pools:
         self.cold_cd: list[dict] = []     # scripts with assignments / ctx blocks / keywords / message switches / macros (C12 cold start)
         self.cold_rs: list[dict] = []
         self.cli_public: list[str] = []
+        self.ref_calls: dict[str, dict] = {}   # reference key -> the call
 
 
-def build_pools(run: core.Run, jobs: int, n_prog: int) -> tuple[Pools, dict, Counter]:
+def build_pools(run: core.Run, jobs: int, n_prog: int, light: bool = False) -> tuple[Pools, dict, Counter]:
     """generate inputs; compute the references (each call ALONE in a FRESH process); drop inputs with no answer"""
     r = run.rng
     stats: Counter = Counter()
@@ -276,10 +311,12 @@ def build_pools(run: core.Run, jobs: int, n_prog: int) -> tuple[Pools, dict, Cou
         t = p["text"]
         bad.append({"kind": "compile", "text": t[: max(10, int(len(t) * r.uniform(0.3, 0.9)))], "lookup": []})
     refs: dict[str, dict] = {}
+    ref_calls: dict[str, dict] = {}
 
     def reference(calls: list[dict]) -> None:
         todo = [c for c in calls if spec_key(c) not in refs]
         uniq = {spec_key(c): c for c in todo}
+        ref_calls.update(uniq)
         keys = list(uniq)
         res = fresh.run_fresh_many([(SESSION, {"calls": [alone(uniq[k])], "full": "all"}) for k in keys], jobs, timeout=60)
         for k, x in zip(keys, res):
@@ -349,15 +386,19 @@ def build_pools(run: core.Run, jobs: int, n_prog: int) -> tuple[Pools, dict, Cou
     pools.cli_fn += [{"kind": "cli_fn", "fn": "cli.check_settings", "arg": a} for a in
                      ({"settings": {"performance_progress_list_var_name": "P", "dungeon_mode_constants": {"open": "O", "closed": "C", "request": "R", "open_request": "OR"}}}, {"settings": {}})]
     ssbs = [dict(copy.deepcopy(c), kind="ssbs_decompile") for c in pools.rs_ml + pools.rs + pools.rs_switch[:3]]
+    if light:      # C12 uses only the compile / decompile pools
+        ssbs, pools.cli, pools.cli_build, pools.cli_fn, pools.rs_ml = [], [], [], [], []
+        pools.graphs = [[c for c in g if not c.get("macros_only")] for g in pools.graphs]
     reference(pools.rs + pools.rs_abort + pools.rs_switch + pools.rs_broken + pools.cli + pools.cd + pools.cli_build + pools.rs_ml + ssbs + pools.cli_fn + pools.cold_cd + pools.cold_rs
               + [c for g in pools.graphs for c in g])
     pools.graphs = [[c for c in g if not refs[spec_key(c)].get("no_answer")] for g in pools.graphs]
     pools.graphs = [g for g in pools.graphs if len(g) >= 2]
-    pools.rs_ml = [c for c in pools.rs_ml if not refs[spec_key(c)].get("no_answer") and not refs[spec_key(dict(c, kind="ssbs_decompile"))].get("no_answer")]
+    pools.rs_ml = [c for c in pools.rs_ml if not refs[spec_key(c)].get("no_answer") and not refs.get(spec_key(dict(c, kind="ssbs_decompile")), {}).get("no_answer")]
     pools.cli_build = [c for c in pools.cli_build if not refs[spec_key(c)].get("no_answer")]
     pools.cli_fn = [c for c in pools.cli_fn if not refs[spec_key(c)].get("no_answer")]
     pools.cold_cd = [c for c in pools.cold_cd if not refs[spec_key(c)].get("no_answer")]
     pools.cold_rs = [c for c in pools.cold_rs if not refs[spec_key(c)].get("no_answer")]
+    pools.ref_calls = ref_calls
     for name in ("rs", "rs_abort", "rs_switch", "rs_broken", "cli", "cd"):
         setattr(pools, name, [c for c in getattr(pools, name) if not refs[spec_key(c)].get("no_answer")])
     return pools, refs, stats
@@ -733,14 +774,53 @@ def run(run: core.Run) -> int:
                            f"globals, interpreter settings) differs from the list the history model is built over (lean/ESV/Cache/Shared.lean): new {inv_new}, no longer present {inv_gone}",
                            {"new": inv_new, "gone": inv_gone})
     pools, refs, stats = build_pools(run, jobs, n_prog)
-    # fresh processes against each other (process restarts; hash randomisation)
-    sample = run.rng.sample(pools.rs + pools.texts + pools.rs_switch, min(16 if quick else 60, len(pools.rs + pools.texts + pools.rs_switch)))
-    tasks = [(SESSION, {"calls": [alone(c)]}, hs) for c in sample for hs in ("1", "random")]
-    for (fn, arg, hs), x in zip(tasks, fresh.run_fresh_many(tasks, jobs, timeout=60)):
-        stats["fresh_vs_fresh"] += 1
-        ref = refs[spec_key(arg["calls"][0])]
-        if fresh.failed(x) or x["results"][0]["digest"] != ref["digest"]:
-            run.violation("result_differs_between_fresh_processes", f"the same call gives another result in a fresh process with PYTHONHASHSEED={hs}", {"calls": arg["calls"], "hashseed": hs})
+    # fresh processes against each other: EVERY reference call again under other hash seeds (explicit 1, and random); results must be identical
+    set_like_new = [x for x in inv_new if x.startswith(("set-iteration|", "identity-key|"))]
+    seeds = ["1", "random"] + (["2", "3", "4", "5", "random", "random"] if set_like_new else [])
+    stats["hash_seeds_compared_with_seed_0"] = len(seeds)
+    keys = [k for k, r0 in refs.items() if not r0.get("no_answer") and k in pools.ref_calls]
+    single = [k for k in keys if refs[k]["summary"].get("error") == "ParseError"]          # (their MESSAGE depends on earlier parses: run alone)
+    batched = [k for k in keys if k not in set(single)]
+    tasks, owners = [], []
+    for hs in seeds:
+        order = list(batched)
+        run.rng.shuffle(order)
+        for i in range(0, len(order), 8):
+            ks = order[i:i + 8]
+            tasks.append((SESSION, {"calls": [alone(pools.ref_calls[k]) for k in ks]}, hs)); owners.append((hs, ks))
+        for k in single:
+            tasks.append((SESSION, {"calls": [alone(pools.ref_calls[k])]}, hs)); owners.append((hs, [k]))
+    suspects: dict[str, str] = {}
+    for (hs, ks), x in zip(owners, fresh.run_fresh_many(tasks, jobs, timeout=180)):
+        if fresh.failed(x) or "results" not in x:
+            stats["seed_runs_without_answer"] += 1
+            continue
+        for k, row in zip(ks, x["results"]):
+            stats["fresh_vs_fresh"] += 1
+            if row["digest"] != refs[k]["digest"]:
+                suspects.setdefault(k, hs)
+    for k, hs in list(suspects.items())[:10]:
+        call = alone(pools.ref_calls[k])
+        alone_runs = fresh.run_fresh_many([(SESSION, {"calls": [call], "full": "all"}, sd) for sd in ("0", "1", "2", "3", "4", "5")], jobs, timeout=120)
+        digs = {sd: (x["results"][0]["digest"] if not fresh.failed(x) and "results" in x else "no-answer") for sd, x in zip(("0", "1", "2", "3", "4", "5"), alone_runs)}
+        if len(set(digs.values())) > 1:
+            groups: dict[str, list[str]] = {}
+            for sd, dg in digs.items():
+                groups.setdefault(dg, []).append(sd)
+            fulls = {x["results"][0]["digest"]: x["results"][0].get("full", {}) for x in alone_runs if not fresh.failed(x) and "results" in x}
+            two = list(fulls.values())[:2]
+            fd = field_diff(two[0], two[1]) if len(two) == 2 else []
+            what = (f"{call['kind']} of the same input alone in fresh processes gives different {'/'.join(fd) or 'results'} depending on PYTHONHASHSEED "
+                    f"(seeds grouped by result: {sorted(groups.values())})")
+            if call.get("project"):
+                what += f"; file {call['project']['main']} of a project whose imports are {[ln for ln in call['text'].splitlines() if ln.startswith('import')]}"
+            run.violation("result_depends_on_hash_seed", what,
+                          {"history": [call], "observed_call": call, "hash_seeds": digs, "fields": fd,
+                           "values": {sd: {f: x["results"][0].get("full", {}).get(f) for f in fd[:3]} for sd, x in zip(("0", "1", "2", "3", "4", "5"), alone_runs) if not fresh.failed(x) and "results" in x},
+                           "how_to_replay": "./check C11 --replay <this file>: runs the call alone in fresh processes with PYTHONHASHSEED=0..5 and compares"})
+        else:
+            run.violation("result_differs_between_fresh_processes", f"a call gave another result in a fresh process with PYTHONHASHSEED={hs} next to other calls, but not alone",
+                          {"history": [call], "hashseed": hs})
 
     # histories -> sessions
     witnesses = witness_histories(pools)
@@ -926,6 +1006,16 @@ def replay(run: core.Run, path: str) -> int:
     data = json.load(open(path))
     rp = data["replay"]
     calls = rp["history"]
+    if "hash_seeds" in rp:
+        outs = [run_calls(calls, full="all") if sd == "0" else fresh.run_fresh(SESSION, {"calls": calls}, 120, sd) for sd in ("0", "1", "2", "3", "4", "5")]
+        digs = [x["results"][-1]["digest"] if not fresh.failed(x) else "no-answer" for x in outs]
+        if len(set(digs)) > 1:
+            print("VIOLATION-REPLAY", data.get("kind"), "digests under PYTHONHASHSEED=0..5:", digs)
+            cleanup_projects_of(calls)
+            return 1
+        print("REPLAY: equal results under PYTHONHASHSEED=0..5")
+        cleanup_projects_of(calls)
+        return 0
     ref = run_calls([alone(calls[-1])], full="all")
     got = run_calls(calls, full=[len(calls) - 1])
     if fresh.failed(ref) or fresh.failed(got):
